@@ -62,6 +62,15 @@ namespace
         Tiny(int x = 0) : v((uint16_t)x) {}
     };
     int val_of(const Tiny &t) { return t.v; }
+    // a recursive value type that can be built from a list of itself: emplace_back(args) must construct T(args), not T{args}
+    struct Nest
+    {
+        int v;
+        std::vector<Nest> kids;
+        Nest(int x = 0) : v(x) {}
+        Nest(std::initializer_list<Nest> l) : v(-1), kids(l) {}
+    };
+    int val_of(const Nest &t) { return t.kids.empty() ? t.v : -100000 - (int)t.kids.size(); }
     // an element with an extended alignment: every slot of the inline storage must be aligned for it
     struct alignas(32) Wide32
     {
@@ -214,6 +223,7 @@ namespace
             case S_EMPLACE:
             {
                 E e(val);
+                E e_rv(val); // (handed over as an rvalue in a third of the pushes; built before the storage guard is set)
                 if (mx.size() == N) { overflow_offered = true; probe("push_when_full"); fault("input_beyond_capacity"); }
                 // fault: the element's constructor throws while it is being appended - the container must be unchanged
                 bool boom = std::is_same<E, tracked::T>::value && mod(arg(o, 3), 7) == 0;
@@ -222,7 +232,8 @@ namespace
                 if (boom) R.throw_after = 1;
                 try
                 {
-                    if (k == S_PUSH) x.push_back(e);
+                    if (k == S_PUSH && mod(arg(o, 2), 3) == 2) x.push_back(std::move(e_rv)); // an rvalue
+                    else if (k == S_PUSH) x.push_back(e);
                     else if (mod(arg(o, 2), 2)) x.emplace_back(val);
                     else x.emplace_back(e); // a named (non-const) object: it is copied, the caller keeps its value
                 }
@@ -683,11 +694,12 @@ int main(int argc, char **argv)
     SVWorld<Tiny, false> wy(PARTNAME "static_vector<2-byte element>", false);
     SVWorld<UCell, false> wu(PARTNAME "static_vector<union element with a destructor>", false);
     SVWorld<Wide32, false> ww(PARTNAME "static_vector<element aligned to 32 bytes>", false);
+    SVWorld<Nest, false> wnest(PARTNAME "static_vector<value constructible from a list of itself>", false);
     SSWorld ws;
     Harness h;
     h.property = "C14";
     BigCapWorld wbig;
-    h.worlds = {&wi, &wt, &ws, &wh, &wy, &wu, &wbig, &ww};
+    h.worlds = {&wi, &wt, &ws, &wh, &wy, &wu, &wbig, &ww, &wnest};
 #ifdef C14_TWIN
     h.real = {"igris/container/std_portable.h (static_vector, static_string twins)"};
 #else
